@@ -13,6 +13,27 @@ from gen_text import classify_string, decimal_spellings, exhaustive_strings, int
 import lang  # noqa: E402
 
 CONTEXTS = ["arg", "arg_ssbs", "menu", "msgcase", "msgdefault", "lang", "lang_ssbs"]
+LB = "\n\r\x0b\x0c\x1c\x1d\x1e\x85\u2028\u2029"
+
+
+def single_exact(s: str) -> bool:
+    return not ("\r" in s or "\f" in s or "\\n" in s or "\\'" in s or '\\"' in s or "\\\n" in s or s.endswith("\\"))
+
+
+def raw_exact(s: str, d: str) -> bool:
+    return d not in s and not s.endswith(d[0]) and not any(c in s for c in LB)
+
+
+def multi_exact(s: str, d: str) -> bool:
+    return d not in s and not any(c in s for c in LB if c != "\n") and any(not ln.startswith(" ") for ln in s.split("\n"))
+
+
+def has_exact_form(s: str) -> bool:
+    """the `printable` predicate: some literal form of the language spells this string exactly (harness model of the
+    conditions under which the round trip is claimed; mirrored by Text/StrModel.v)"""
+    if "\n" not in s:
+        return single_exact(s) or raw_exact(s, "'''") or raw_exact(s, '"""')
+    return multi_exact(s, "'''") or multi_exact(s, '"""') or single_exact(s)
 
 
 def print_param_real(p: list, indent: int) -> str:
@@ -111,12 +132,18 @@ def main() -> None:
         run.count("print-parse:FAIL")
         if p[0] in ("s", "l"):
             cls = classify_string(s)
-            sig = f"string:{cls}:" + ("indent0" if indent == 0 else "indentN") + ":" + ("ok-different" if out["ok"] else out["stage"] + ":" + out["err"])
+            if not has_exact_form(s):
+                sig = "string without an exact literal form"
+            else:
+                sig = f"string:{cls}:" + ("indent0" if indent == 0 else "indentN") + ":" + ("ok-different" if out["ok"] else out["stage"] + ":" + out["err"])
             what = f"string {s!r} printed at indent {indent} in context {ctx} " + \
                    (f"comes back as {out['back']!r}" if out["ok"] else f"is rejected ({out['err']})")
         elif p[0] == "p":
             okname = all(c not in p[1] for c in "'\"\\\n")
-            sig = f"posmark:offsets={p[2] if p[2] in (0, 2) else 'x' + str(p[2])}/{p[3] if p[3] in (0, 2) else 'x' + str(p[3])}:name-" + ("plain" if okname else "special")
+            if p[2] not in (0, 2) or p[3] not in (0, 2):
+                sig = "position mark offset other than 0 and 2"
+            else:
+                sig = f"posmark:name-" + ("plain" if okname else "special")
             what = f"position mark {p!r} " + (f"comes back as {out['back']!r}" if out["ok"] else f"is rejected ({out.get('err')})")
         else:
             sig = f"{p[0]}:{p[1]!r}"
@@ -147,6 +174,7 @@ def main() -> None:
                     pad = " " * ind
                     lits.append(tq + "\n" + "\n".join(pad + ln for ln in body.split("\n")) + "\n" + " " * r.choice([0, ind, ind + 3]) + tq)
                 lits.append(tq + body + tq)
+    lits += ["'''\n\x1c  a\n   '''", '"""a\x0bb"""', "'''\n  x\x85y\n'''"]
     for tok in lits:
         try:
             want = lang.spec_string_value(tok)
@@ -165,7 +193,11 @@ def main() -> None:
             run.count("spelling:FAIL")
             if kind == "str":
                 cls = classify_string(want[1])
-                sig = f"spelling:str:{'multi' if tok[:3] in (chr(39) * 3, chr(34) * 3) and len(tok) >= 6 else 'single'}:{cls}"
+                multi = tok[:3] in (chr(39) * 3, chr(34) * 3) and len(tok) >= 6
+                if multi and any(c in tok for c in LB if c != "\n"):
+                    sig = "multi line literal with a line separator other than LF"
+                else:
+                    sig = f"spelling:str:{'multi' if multi else 'single'}:{cls}"
             else:
                 sig = f"spelling:{kind}:{tok}"
             run.fail(sig, f"literal {tok!r} ({comp}) should denote {want!r}, got {o}", {"literal": tok, "expected": want, "observed": out})
